@@ -6,7 +6,7 @@ tools/mutlab.sh sync || exit 2
 also() { case "$1" in
   C02-m2) echo "C12";; C06-m2) echo "C01";; C09-m1) echo "C02";; C10-m2) echo "C09 C02";; C11-m1) echo "C14";;
   C12-m2) echo "C02 C09";; C13-m1) echo "C12";; C13-m2) echo "C06";; C17-m2) echo "C10";; C08-m1) echo "C05 C07";;
-  C01-m4) echo "C07";; C02-m4) echo "C05";; C08-m4) echo "C09";; C12-m4) echo "C06";; C14-m8) echo "C16";; C13-m8) echo "C06";; C13-m3) echo "C06";; C13-m4) echo "C12";; *) echo "";; esac; }
+  C01-m4) echo "C07";; C02-m4) echo "C05";; C08-m4) echo "C09";; C12-m4) echo "C06";; C14-m8) echo "C16";; C08-m9) echo "C01 C05";; C13-m8) echo "C06";; C13-m3) echo "C06";; C13-m4) echo "C12";; *) echo "";; esac; }
 OUT=${OUT:-seeded/RESULTS.md}
 { echo "# Seeded changes: which check reports which change (quick tier, seed ${VERIF_SEED:-1})"; echo
   echo "Produced by tools/seeded_matrix.sh at /verif $(git rev-parse --short HEAD) against /repo $(git -C /repo rev-parse --short HEAD)."; echo
